@@ -86,7 +86,7 @@ def body_orch(E, cfg):
 def units(prop):
     return [
         Unit(name="filterOutSubsequentAlignmentsForSingleQuery", body=body_filter,
-             configs=lambda tier: [{"n": k} for k in range(0, (5 if tier == "quick" else 6))] + [{"n": 3, "via_create": True}],
+             configs=lambda tier: [{"n": k} for k in range(0, (5 if tier == "quick" else 8))] + [{"n": 3, "via_create": True}],
              functions=["src.alignment.alignment_results:AlignmentResults.filterOutSubsequentAlignmentsForSingleQuery",
                         "src.alignment.alignment_results:AlignmentResults.create"],
              shard_depth=lambda cfg, tier: 8 if cfg["n"] >= 5 else None,
